@@ -61,7 +61,7 @@ def run(ctx):
     else:
         reqs += [("c04", "enum", "3", "0", "3000")]
     cases = S.fetch(reqs)
-    ctx.rule("all well-formed histories of <=%d declarations / scope openings / closings (typedef, object, function, tag, member, prototype parameter) of 2 names, nesting depth <= 2, after 4 file-scope prefixes, with both names probed after every event and after every scope exit (4 probe forms: 'T * x;', '(T)(x);', 'sizeof(T);', 'T (x);'); the expected classification comes from Spec.isType" % (3 if ctx.quick() else 4))
+    ctx.rule("all well-formed histories of <=%d declarations / scope openings / closings (typedef, object, function, tag, member, prototype parameter) of 2 names, nesting depth <= 2, after 4 file-scope prefixes, inside a function definition whose parameter list rotates through 7 forms (none, a hiding parameter, unnamed parameters before / after it, two parameters), with both names probed after every event and after every scope exit (4 probe forms: 'T * x;', '(T)(x);', 'sizeof(T);', 'T (x);'); the expected classification comes from Spec.isType" % (3 if ctx.quick() else 4))
     texts = [c[0] for c in cases]
     got = pmap(probe_classes, texts)
     keys = set()
